@@ -1,7 +1,8 @@
 (* C03 — Hash, MAC and KDF interfaces equal their standards under every chunking.
    This file contains only the final statements; every proof is one [exact]. *)
 From GmVerif Require Import Base.ListX Base.Bytes Hash.MD Hash.SM3 Hash.SM3Proofs
-  Hash.SHA2 Hash.SHA2Proofs Hash.Hmac Hash.HmacProofs Hash.Instances Hash.C03Lemmas.
+  Hash.SHA2 Hash.SHA2Proofs Hash.Hmac Hash.HmacProofs Hash.Instances Hash.C03Lemmas
+  Hash.SM3Unrolled Hash.SM3UnrolledProofs.
 
 Theorem C03_sm3_stream : forall chunks : list (list N),
   sm3_finish (fold_left sm3_update chunks sm3_init) = sm3 (concat chunks).
@@ -100,3 +101,10 @@ Theorem C03_from_state_128 : forall compress out st nb (chunks : list (list N)),
   = from_state_spec compress out 128 16 len128_spec st nb (concat chunks).
 Proof. exact from_state_128. Qed.
 Print Assumptions C03_from_state_128.
+
+(* The default build's unrolled, role-rotating, schedule-on-the-fly compression function
+   (literal K table, GG16 as ((y^z)&x)^z) equals the standard's rounds form used above. *)
+Theorem C03_sm3_unrolled_eq_rounds : forall st blk,
+  sm3_compress_unrolled st blk = sm3_compress st blk.
+Proof. exact sm3_unrolled_eq_rounds. Qed.
+Print Assumptions C03_sm3_unrolled_eq_rounds.
